@@ -19,6 +19,7 @@ def run(tier, seed):
         "list comprehension with a filter keeps relative order (pyvc §3.6-3)",
         "collections.abc.MutableSet mixins (remove, pop, clear, |=, &=, -=, ^=, |, &, -, ^, ==, isdisjoint) and __lt__/__gt__/union: bounded run only",
         "OrderedSet.update proved for 0, 1 and 2 iterables (outer loop unrolled), any contents",
+        "helpers proved for list/tuple and OrderedSet arguments, except ordered_union with an OrderedSet as second argument (bounded run only)",
         "termination not proved",
     ]
     from contracts.c24_orderedset import HELPER_KEYS
